@@ -266,6 +266,16 @@ def run(rep: common.Report, tier: str, seed: int, replay=None) -> int:
             if not np.array_equal(snap, mesh.sites):
                 rep.violation("Mesh.smooth() moved the sites of the mesh it was called on (it returns a new mesh)",
                               {"mesh": mi, "max_shift": float(np.max(np.abs(snap - mesh.sites)))})
+        if mi % 4 == 1:
+            # the mesh as a user often has it: read back from a file (stored arrays); the operators are built on the restored mesh
+            import h5py
+            import tempfile
+            from tdgl.finite_volume.mesh import Mesh
+            with tempfile.TemporaryDirectory(prefix="pyt_c03_") as td_:
+                with h5py.File(td_ + "/mesh.h5", "w") as f_:
+                    mesh.to_hdf5(f_.create_group("mesh"), compress=False)
+                with h5py.File(td_ + "/mesh.h5", "r") as f_:
+                    mesh = Mesh.from_hdf5(f_["mesh"])
         with_fixed = (mi % 2 == 1)
         A, U, fixed, impl = build_case(rng, mesh, with_fixed)
         oracle(rep, mesh, impl, A, U, rng, mi)
